@@ -116,6 +116,40 @@ claim("C29", "S2",
       "Termination itself is undecidable; user actions are assumed to terminate and to schedule finitely many actions.",
       "ast lock re-acquisition reachability + property table + path enumeration of loop bodies")
 
+claim("C30", "S2",
+      "Lock discipline + structure of Trampoline: guarded-by for _idle/_queue; enqueue and idle test-and-set in one "
+      "region and only the idle-finder drains (never nested), decided on every path of run(); invoke only in _run, "
+      "outside the lock, under not is_cancelled(); ready only under duetime <= now; FIFO ready deque; idle restored in a "
+      "finally under the lock; non-reentrant lock never re-acquired; per-thread trampoline resolution.",
+      "threading primitives trusted; PriorityQueue stability is C28's clause; no concrete interleaving is run.",
+      "ast lock-region analysis + path enumeration + guard dominance")
+
+claim("C31", "S2",
+      "Lock discipline + structure of EventLoopScheduler: guarded-by for the four shared fields with helper-under-lock "
+      "and monotone-early-raise idioms; invoke only in run(), outside the lock, not cancelled; single consumer thread "
+      "(created only when none, target run); timed dequeue only when not (due > now); disposed test first per iteration; "
+      "exit_if_empty clears the thread slot in the region deciding emptiness; FIFO lists; dispose locked test-and-set + "
+      "notify; no re-acquisition of the non-reentrant condition.",
+      "threading.Condition semantics trusted; real-time behaviour is not executed.",
+      "ast lock-region analysis + guard dominance with comparator normalisation")
+
+claim("C32", "S2",
+      "Producer/consumer handshake decided structurally: each core enqueues one action of its own kind before "
+      "ensure_active; ownership test-and-set in one region, drain scheduled outside under the local; run pops from the "
+      "front or releases ownership in the region that tests emptiness (no lost wake-up), one item per run, re-schedule "
+      "after the item, fault latch under the lock then re-raise; no other delivery site; observe_on wiring.",
+      "list.append/pop(0) atomicity in CPython (the enqueue is outside the lock by design); target scheduler runs each "
+      "scheduled run once.",
+      "ast lock-region analysis + path typestate of run()")
+
+claim("C33", "S2",
+      "Every handle.cancel() reachable from a dispose closure is dominated by the loop-affinity predicate or marshalled "
+      "through call_soon_threadsafe and awaited; return-value analysis of the predicate (truthy constant only when the "
+      "loop is not running, falsy on the get_running_loop() failure path, otherwise loop identity); thread-safe entry "
+      "points only; cancel disposable held and delay forwarded.",
+      "asyncio FIFO callback order and Future.result() blocking are trusted.",
+      "ast guard dominance + return-value analysis + who-may-call on loop entry points")
+
 na("C15", "arithmetic over run-time timestamps (queue ordering by timestamp + duetime, 'exactly d later'); no structural "
           "clause that is both necessary and robust beyond ownership/guarding/falsy rules already decided under "
           "C02/C03/C08/C09, whose scope includes these files")
